@@ -1289,7 +1289,8 @@ class Concatenate(CanBehaveLikeAVariable[T]):
         super().__post_init__()
         self._var_ = self
 
-    def _evaluate__(self, sources: Optional[Dict[int, HashedValue]] = None) -> Iterable[Dict[int, HashedValue]]:
+    def _evaluate__(self, sources: Optional[Dict[int, HashedValue]] = None,
+                    yield_when_false: bool = False) -> Iterable[Dict[int, HashedValue]]:
         sources = sources or {}
         if self._id_ in sources:
             yield sources
@@ -1304,9 +1305,10 @@ class Concatenate(CanBehaveLikeAVariable[T]):
                         child_v_unwrapped = [child_v_unwrapped]
                     all_values[self._id_].extend(child_v_unwrapped)
                 all_values[id_].append(val)
-            for s_id, s_val in sources.items():
-                all_values[s_id].append(s_val)
-        yield {k: HashedValue(v) for k, v in all_values.items()}
+        output = {k: HashedValue(v) for k, v in all_values.items()}
+        # the bindings this node was evaluated under are not aggregated, they stay what they are
+        output.update(sources)
+        yield output
 
     @property
     def _name_(self):
